@@ -584,3 +584,246 @@ func coqLogin(lf *loginFacts, rev string) string {
 	fmt.Fprintf(&b, "Definition login_check_key : option addr_choice := %s.\nDefinition login_count_key : option addr_choice := %s.\n", k(lf.CheckKey), k(lf.CountKey))
 	return b.String()
 }
+
+// ---------------------------------------------------------------------------
+// Session keys (auth.go, authhttp.go): which string indexes Auth.sessions and
+// which bytes key the bucket, on the check side and on the removal side.
+
+type sessionFacts struct {
+	Found         bool     `json:"found"`
+	CheckAsSent   bool     `json:"check_as_sent"`   // checkSession: a.sessions[sess], delete(a.sessions, sess), hex.DecodeString(sess), sess never reassigned
+	RemoveAsSent  bool     `json:"remove_as_sent"`  // removeSession: delete(a.sessions, sess), sess never reassigned
+	RemoveDecodes bool     `json:"remove_decodes"`  // removeSession: removeSessionFromFile(key) with key, _ := hex.DecodeString(sess)
+	CookieValue   bool     `json:"cookie_value"`    // optionalAuth / optionalAuthThird / handleLogout pass <cookie>.Value of r.Cookie(sessionCookieName) unchanged
+	Notes         []string `json:"notes"`
+}
+
+func (f *sessionFacts) note(format string, a ...any) {
+	f.Notes = append(f.Notes, fmt.Sprintf(format, a...))
+}
+
+func lastParam(info *types.Info, fd *ast.FuncDecl) types.Object {
+	ps := fd.Type.Params.List
+	if len(ps) == 0 {
+		return nil
+	}
+	last := ps[len(ps)-1]
+	if len(last.Names) == 0 {
+		return nil
+	}
+	return info.ObjectOf(last.Names[len(last.Names)-1])
+}
+
+func reassigned(info *types.Info, body ast.Node, v types.Object) bool {
+	bad := false
+	ast.Inspect(body, func(n ast.Node) bool {
+		switch x := n.(type) {
+		case *ast.AssignStmt:
+			for _, l := range x.Lhs {
+				if identIs(info, l, v) {
+					bad = true
+				}
+			}
+		case *ast.UnaryExpr:
+			if x.Op == token.AND && identIs(info, x.X, v) {
+				bad = true
+			}
+		}
+		return true
+	})
+	return bad
+}
+
+// isSessionsMap: the selector <recv>.sessions of type map[string]*session.
+func isSessionsMap(e ast.Expr) bool {
+	sel, ok := ast.Unparen(e).(*ast.SelectorExpr)
+	return ok && sel.Sel.Name == "sessions"
+}
+
+func isHexDecode(info *types.Info, c *ast.CallExpr) bool {
+	f, ok := calleeObj(info, c.Fun).(*types.Func)
+	return ok && f.Pkg() != nil && f.Pkg().Path() == "encoding/hex" && f.Name() == "DecodeString"
+}
+
+func scanSessionKeys(p *packages.Package, sf *sessionFacts) {
+	info := p.TypesInfo
+	sf.Found = true
+	// --- checkSession
+	if fd := findFunc(p, "checkSession", "Auth"); fd == nil {
+		sf.note("(*Auth).checkSession not found")
+	} else {
+		par := lastParam(info, fd)
+		ok := par != nil && !reassigned(info, fd.Body, par)
+		if !ok {
+			sf.note("checkSession: the cookie string parameter is reassigned")
+		}
+		nIdx := 0
+		ast.Inspect(fd.Body, func(n ast.Node) bool {
+			switch x := n.(type) {
+			case *ast.IndexExpr:
+				if isSessionsMap(x.X) {
+					nIdx++
+					if !identIs(info, x.Index, par) {
+						ok = false
+						sf.note("checkSession: Auth.sessions is indexed with `%s` at %s, not with the cookie string as sent", types.ExprString(x.Index), pos(x.Pos()))
+					}
+				}
+			case *ast.CallExpr:
+				if id, isID := x.Fun.(*ast.Ident); isID && id.Name == "delete" && len(x.Args) == 2 && isSessionsMap(x.Args[0]) && !identIs(info, x.Args[1], par) {
+					ok = false
+					sf.note("checkSession: delete(a.sessions, %s) at %s does not use the cookie string as sent", types.ExprString(x.Args[1]), pos(x.Pos()))
+				}
+				if isHexDecode(info, x) && (len(x.Args) != 1 || !identIs(info, x.Args[0], par)) {
+					ok = false
+					sf.note("checkSession: hex.DecodeString at %s is not applied to the cookie string as sent", pos(x.Pos()))
+				}
+			}
+			return true
+		})
+		if nIdx == 0 {
+			ok = false
+			sf.note("checkSession: no lookup in Auth.sessions found")
+		}
+		sf.CheckAsSent = ok
+	}
+	// --- removeSession
+	if fd := findFunc(p, "removeSession", "Auth"); fd == nil {
+		sf.note("(*Auth).removeSession not found")
+	} else {
+		par := lastParam(info, fd)
+		asSent := par != nil && !reassigned(info, fd.Body, par)
+		nDel := 0
+		var keyObj types.Object
+		decodes := false
+		ast.Inspect(fd.Body, func(n ast.Node) bool {
+			switch x := n.(type) {
+			case *ast.AssignStmt:
+				if len(x.Rhs) == 1 && len(x.Lhs) == 2 {
+					if c, isCall := ast.Unparen(x.Rhs[0]).(*ast.CallExpr); isCall && isHexDecode(info, c) && len(c.Args) == 1 && identIs(info, c.Args[0], par) {
+						if id, isID := x.Lhs[0].(*ast.Ident); isID {
+							keyObj = info.ObjectOf(id)
+						}
+					}
+				}
+			case *ast.CallExpr:
+				if id, isID := x.Fun.(*ast.Ident); isID && id.Name == "delete" && len(x.Args) == 2 && isSessionsMap(x.Args[0]) {
+					nDel++
+					if !identIs(info, x.Args[1], par) {
+						asSent = false
+						sf.note("removeSession: delete(a.sessions, %s) at %s does not use the cookie string as sent", types.ExprString(x.Args[1]), pos(x.Pos()))
+					}
+				}
+				if methodCall(info, x, "Auth", "removeSessionFromFile") {
+					if len(x.Args) == 1 && keyObj != nil && identIs(info, x.Args[0], keyObj) {
+						decodes = true
+					} else {
+						sf.note("removeSession: removeSessionFromFile(%s) at %s is not given the result of hex.DecodeString(<cookie string>)", types.ExprString(x.Args[0]), pos(x.Pos()))
+					}
+				}
+			}
+			return true
+		})
+		if nDel != 1 {
+			asSent = false
+			sf.note("removeSession: %d delete(a.sessions, ...) calls, want 1", nDel)
+		}
+		if keyObj != nil && reassigned2(info, fd.Body, keyObj) {
+			decodes = false
+			sf.note("removeSession: the decoded key is assigned more than once")
+		}
+		sf.RemoveAsSent, sf.RemoveDecodes = asSent, decodes
+	}
+	// --- the callers pass <cookie>.Value of r.Cookie(sessionCookieName)
+	cv := true
+	seen := 0
+	for _, name := range []string{"optionalAuth", "optionalAuthThird", "handleLogout"} {
+		fd := findFunc(p, name, "")
+		if fd == nil {
+			cv = false
+			sf.note("home.%s not found", name)
+			continue
+		}
+		ast.Inspect(fd.Body, func(n ast.Node) bool {
+			c, ok := n.(*ast.CallExpr)
+			if !ok || !(methodCall(info, c, "Auth", "checkSession") || methodCall(info, c, "Auth", "removeSession")) {
+				return true
+			}
+			seen++
+			good := false
+			if len(c.Args) == 1 {
+				if sel, ok := ast.Unparen(c.Args[0]).(*ast.SelectorExpr); ok && sel.Sel.Name == "Value" {
+					if id, ok := ast.Unparen(sel.X).(*ast.Ident); ok && cookieVar(info, fd, info.ObjectOf(id)) {
+						good = true
+					}
+				}
+			}
+			if !good {
+				cv = false
+				sf.note("%s: the session call at %s is not given <cookie>.Value of r.Cookie(sessionCookieName)", name, pos(c.Pos()))
+			}
+			return true
+		})
+	}
+	if seen < 3 {
+		cv = false
+		sf.note("%d checkSession / removeSession calls in optionalAuth, optionalAuthThird, handleLogout, want at least 3", seen)
+	}
+	sf.CookieValue = cv
+}
+
+// reassigned2: v is assigned (or defined) more than once.
+func reassigned2(info *types.Info, body ast.Node, v types.Object) bool {
+	n := 0
+	ast.Inspect(body, func(nd ast.Node) bool {
+		if x, ok := nd.(*ast.AssignStmt); ok {
+			for _, l := range x.Lhs {
+				if identIs(info, l, v) {
+					n++
+				}
+			}
+		}
+		return true
+	})
+	return n > 1
+}
+
+// cookieVar: v is assigned exactly once in fd, as the first result of
+// <req>.Cookie(sessionCookieName).
+func cookieVar(info *types.Info, fd *ast.FuncDecl, v types.Object) bool {
+	n, good := 0, 0
+	ast.Inspect(fd.Body, func(nd ast.Node) bool {
+		x, ok := nd.(*ast.AssignStmt)
+		if !ok {
+			return true
+		}
+		for i, l := range x.Lhs {
+			if !identIs(info, l, v) {
+				continue
+			}
+			n++
+			if i == 0 && len(x.Rhs) == 1 {
+				if c, ok := ast.Unparen(x.Rhs[0]).(*ast.CallExpr); ok && len(c.Args) == 1 {
+					if sel, ok := c.Fun.(*ast.SelectorExpr); ok && sel.Sel.Name == "Cookie" {
+						if a, ok := ast.Unparen(c.Args[0]).(*ast.Ident); ok && a.Name == "sessionCookieName" {
+							good++
+						}
+					}
+				}
+			}
+		}
+		return true
+	})
+	// handleLogout re-uses the variable for the cookie it sets afterwards
+	return good == 1 && n <= 2
+}
+
+func coqSessionKeys(sf *sessionFacts) string {
+	var b strings.Builder
+	b.WriteString("\n(* auth.go / authhttp.go: the string that indexes Auth.sessions and the bytes that key the bucket *)\n")
+	for _, n := range sf.Notes {
+		fmt.Fprintf(&b, "(* %s *)\n", comment(n))
+	}
+	fmt.Fprintf(&b, "Definition session_check_as_sent : bool := %s.\nDefinition session_remove_as_sent : bool := %s.\nDefinition session_remove_decodes : bool := %s.\nDefinition session_cookie_value : bool := %s.\n",
+		coqBool(sf.Found && sf.CheckAsSent), coqBool(sf.Found && sf.RemoveAsSent), coqBool(sf.Found && sf.RemoveDecodes), coqBool(sf.Found && sf.CookieValue))
+	return b.String()
+}
